@@ -9,6 +9,7 @@ Expression nodes are tuples:
   ('agg', kind, adt, variant, fields)   fields: tuple of (name, expr)
   ('closure', id, upvar_exprs) ('fn', short)  ('discr', x)  ('unknown', why)
 """
+import re
 from .facts import const_of, place_of, norm
 from .cfg import cfg
 
@@ -29,6 +30,7 @@ IDENTITY_CALLS = (
 CMP_CALLS = {
     'lt': 'Lt', 'le': 'Le', 'gt': 'Gt', 'ge': 'Ge', 'eq': 'Eq', 'ne': 'Ne',
 }
+PRIM_OPS = {'add': 'Add', 'sub': 'Sub', 'mul': 'Mul', 'div': 'Div', 'rem': 'Rem', 'bitxor': 'BitXor', 'bitand': 'BitAnd', 'bitor': 'BitOr'}
 MINMAX = {
     'core::cmp::min': 'min', 'core::cmp::max': 'max', 'core::cmp::Ord::min': 'min', 'core::cmp::Ord::max': 'max',
 }
@@ -215,6 +217,8 @@ class Ex:
         if last in CMP_CALLS and len(args) == 2 and (
                 gshort.startswith('core::cmp::PartialOrd::') or gshort.startswith('core::cmp::PartialEq::')):
             return canon(('bin', CMP_CALLS[last], args[0], args[1]))
+        if len(args) == 2 and last in PRIM_OPS and re.match(r"^<&?'?[a-z_]*\s?(u|i)(8|16|32|64|128|size) as core::ops::(arith|bit)::", short):
+            return canon(('bin', PRIM_OPS[last], args[0], args[1]))
         if gshort in MINMAX and len(args) == 2:
             return canon(('call', MINMAX[gshort], tuple(args)))
         return canon(('call', short, tuple(args)))
